@@ -76,6 +76,8 @@ def run(ctx) -> None:
   ctx.rule('R4', 'suggested parameters derive from a clipping decoder or from values enumerated from the config', 10)
   ctx.rule('R5', 'scaler unmap decodes through to_parameter_values; eagle value producers clamp / snap', 3)
   ctx.rule('R6', 'default seeding goes through the validating builder with exactly computed values; midpoint is the mean of the bounds', 4)
+  ctx.rule('R12', 'hosted designers build their trial/array converters in the default (float64) precision: a narrower dtype turns '
+           'large bounds into inf and the decoder then drops the parameter', 3)
   ctx.rule('R9', 'a designer that writes literal category values (\'True\'/\'False\') refuses, at construction, every parameter '
            'that is not declared BOOLEAN', 1)
   ctx.rule('R8', 'grid values are decoder output or exact enumerations of the config (no unclamped transcendental arithmetic)', 3)
@@ -91,6 +93,7 @@ def run(ctx) -> None:
   r6_default(ctx)
   r8_grid_values(ctx)
   r9_literal_values(ctx)
+  r12_converter_precision(ctx)
 
 
 class _Relabel:
@@ -360,6 +363,18 @@ def r5_eagle(ctx) -> None:
     decoded = any(k == 'call' and isinstance(v.func, ast.Attribute) and v.func.attr in ('to_parameter_values', 'to_parameters')
                   for k, v in prov_un.origins(n.ast.value, n))
     arm_ok = arm_ok and decoded
+  # no parameter is skipped: every pass through the per-parameter loop reaches one of the stores
+  for st_n in stores_un[:1]:
+    if st_n.loops:
+      hdr = next((m for m in g_un.nodes if m.kind == 'for' and m.ast is st_n.loops[-1]), None)
+      if hdr is not None:
+        starts = [m for m, lab in hdr.succs if m.loops and m.loops[-1] is hdr.ast]
+        inner_stores = [m for m in stores_un if m.loops and m.loops[-1] is hdr.ast]
+        skip = hdr in g_un.reachable(starts, blocked=inner_stores, include_starts=True)
+        ctx.check(not skip, 'R5', 'ProblemAndTrialsScaler.unmap keeps every parameter', hdr.ast,
+                  'every pass through the per-parameter loop stores a value',
+                  'a parameter can be skipped while un-mapping (a path through the loop body stores nothing): the suggestion comes back without '
+                  'one of its parameters, i.e. outside the search space, where the conversion used to raise', construct='unmap-skips', func=un.qualname)
   ctx.check(ok and arm_ok, 'R5', 'ProblemAndTrialsScaler.unmap', un.node,
             'non-categorical values decoded with param_converter.to_parameter_values (clipping decoder)',
             'unmap returns scaled values without the clipping decoder', construct='unmap', func=un.qualname)
@@ -444,6 +459,23 @@ def _eagle_value_model(m: FuncInfo):
   return None, rows
 
 
+# ----------------------------------------------------------------------- R12
+def r12_converter_precision(ctx) -> None:
+  n = 0
+  for f in DESIGNER_FILES:
+    mi = ctx.index.module_of_file(f)
+    for c in ast.walk(mi.tree):
+      if not (isinstance(c, ast.Call) and 'onverter' in (dotted(c.func) or '')):
+        continue
+      n += 1
+      narrow = next((k for k in c.keywords if k.arg == 'dtype' and any(w in unparse(k.value, 0) for w in ('float32', 'float16', 'bfloat16'))), None)
+      ctx.check(narrow is None, 'R12', f'{f}: {unparse(c.func, 50)}(...)', c, 'default precision',
+                f'`{unparse(narrow, 40) if narrow else ""}`: bounds beyond the range of the narrower type scale to inf/NaN, `to_parameters` leaves such a parameter '
+                'out, and the suggestion lacks a parameter of the space', construct=f'{f}:narrow-converter', func=f)
+  if n < 3:
+    raise AnalysisError(f'only {n} converter constructions found in the hosted designers')
+
+
 # ----------------------------------------------------------------------- R9
 def r9_literal_values(ctx) -> None:
   """`parameters[p.name] = 'True' if .. else 'False'`: only correct for parameters whose feasible values are exactly those
@@ -521,6 +553,7 @@ def r8_grid_values(ctx) -> None:
                 '(or values of the domain are never suggested)', construct='grid:enumeration', func=fi.qualname)
     else:
       raise AnalysisError(f'grid values at line {r.lineno}: provenance {sorted(calls)} / {sorted(attrs)} not recognised')
+  r8_grid_whole_function(ctx, fi)
 
 
 def _grid_enumeration_model(fi: FuncInfo, g, rd, r: ast.Return) -> Optional[str]:
@@ -568,6 +601,51 @@ def _grid_enumeration_model(fi: FuncInfo, g, rd, r: ast.Return) -> Optional[str]
       if got != want:
         return f'with bounds=({lo}, {hi}) the grid is {got}, expected {want}'
   return None
+
+
+def r8_grid_whole_function(ctx, fi: FuncInfo) -> None:
+  """The grid of a non-continuous parameter, with the whole function interpreted per parameter type on small and large
+  configurations: exactly the integers of the bounds / the feasible values."""
+  from vzstatic import pathcond
+  cfgp = [p for p in fi.params if p != 'self'][0]
+  prefixes = {d.rsplit('.', 1)[0] for x in ast.walk(fi.node) for d in [dotted(x) if isinstance(x, ast.Attribute) else None]
+              if d and 'ParameterType' in d and d.rsplit('.', 1)[-1].isupper()}
+  if not prefixes:
+    raise AnalysisError('_grid_points_from_parameter_config: no ParameterType dispatch')
+
+  def hook(c, env_):
+    if (pathcond.dotted_name(c.func) or '').endswith('ParameterValue'):
+      kw = {k.arg: k.value for k in c.keywords}
+      return pathcond.neval(kw.get('value', c.args[0] if c.args else None), env_)
+    return NotImplemented
+  rows = 0
+  for T, models in (('INTEGER', [((0, 0), None), ((-2, 2), None), ((16, 4096), None)]),
+                    ('DISCRETE', [((1.5, 7.0), [1.5, 2.5, 7.0])]), ('CATEGORICAL', [(None, ['a', 'b'])])):
+    for bounds, fv in models:
+      env = {f'{cfgp}.type': T, '__callhook__': hook}
+      for pre in prefixes:
+        for t_ in ('DOUBLE', 'INTEGER', 'DISCRETE', 'CATEGORICAL', 'CUSTOM'):
+          env[f'{pre}.{t_}'] = t_
+      if bounds is not None:
+        env[f'{cfgp}.bounds'] = bounds
+        env[f'{cfgp}.bounds[0]'], env[f'{cfgp}.bounds[1]'] = bounds
+      if fv is not None:
+        env[f'{cfgp}.feasible_values'] = list(fv)
+      rows += 1
+      try:
+        got = pathcond.run_concrete(fi.node, env, tolerant=True)
+      except pathcond.Raised as r_:
+        got = f'raise {r_}'
+      except pathcond.NoValue as e:
+        raise AnalysisError(f'grid points of a {T} parameter with bounds {bounds}: cannot be evaluated on the finite model ({e})')
+      want = list(fv) if fv is not None else list(range(bounds[0], bounds[1] + 1))
+      ok = isinstance(got, list) and got == want
+      ctx.check(ok, 'R8', f'grid of a {T} parameter ({bounds or fv})', fi.node, 'exactly the values of the configuration',
+                f'for a {T} parameter with bounds {bounds} / feasible values {fv} the grid is '
+                f'{(str(got[:3]) + " .. " + str(got[-3:]) + f" ({len(got)} values)") if isinstance(got, list) and len(got) > 8 else got}, not the '
+                f'{len(want)} values of the configuration: values outside the domain are suggested (or values of the domain never are)',
+                construct=f'grid:{T}:{bounds or "fv"}', func=fi.qualname)
+  ctx.count('grid_whole_function_rows', rows)
 
 
 # ----------------------------------------------------------------------- R6
